@@ -502,8 +502,80 @@ def parser_corner_stream(ctx, res):
         res.violate("C16:dotted-vs-chained", "dotted access to a field of a section mounted after its paths were read fails", {"stream": "parser-corner"})
 
 
+def config_type_mount_stream(ctx, res):
+    """a schema wrapped by make_type() is a root schema of its own (its instances are configurations on their own) however often the
+    type is used as a field elsewhere: before and after the type is mounted once, twice, and as a list item type, every path the
+    type's own schema enumerates resolves on it to that field, equals the field's reference path, names the value of chained access
+    on an instance of the type, and is the destination of the parser generated for it; the mounting schema names the same
+    declarations under its own mount points"""
+    import cincoconfig as cc
+    for mounts in (0, 1, 2, 3):
+        tls = cc.Schema()
+        tls.verify = cc.BoolField(default=True)
+        tls.ca = cc.StringField(default="ca.pem")
+        tls.pin.depth = cc.IntField(default=1)
+        T = cc.make_type(tls, "MountTls%d" % mounts)
+        s = cc.Schema()
+        s.name = cc.StringField(default="n")
+        if mounts >= 1:
+            s.primary.tls = T
+        if mounts >= 2:
+            s.replica.tls = T
+        if mounts >= 3:
+            s.extra = cc.ListField(T, default=lambda: [])
+        want = ["verify", "ca", "pin", "pin.depth"]
+        case = {"stream": "config-type-mount", "mounted_times": mounts}
+        res.case(stable(case), kind="config-type-mount")
+        try:
+            got = [(p, f) for p, _, f in cc.get_all_fields(tls)]
+            if [p for p, _ in got] != want:
+                res.violate("C16:ref-path", "the schema wrapped by a config type does not enumerate its own paths once the type is used as a field", dict(case, enumerated=[p for p, _ in got], want=want))
+                continue
+            inst = T(ca="other.pem")
+            bad = []
+            for p, f in got:
+                try:
+                    resolved = tls[p]
+                except Exception:  # noqa
+                    resolved = None
+                if resolved is not f:
+                    bad.append([p, "does not lead to the field"])
+                elif cc.item_ref_path(f) != p:
+                    bad.append([p, "reference path is %r" % cc.item_ref_path(f)])
+                elif not isinstance(f, cc.Schema):
+                    chained = inst
+                    for q in p.split("."):
+                        chained = getattr(chained, q)
+                    if inst[p] != chained or (p in inst) is not True:
+                        bad.append([p, "dotted access / membership on an instance disagrees with chained access"])
+            if bad:
+                res.violate("C16:ref-path", "a path enumerated by the schema a config type wraps does not name its field (lookup, reference path, access on an instance)",
+                            dict(case, problems=bad[:4]))
+                continue
+            parser = cc.generate_argparse_parser(tls)
+            dests = sorted({a.dest for a in parser._actions if a.dest != "help"})
+            if dests != sorted(["verify", "ca", "pin.depth"]):
+                res.violate("C16:parser", "the parser generated for the schema a config type wraps does not offer one option per scalar field with dest = path", dict(case, dests=dests))
+                continue
+            cc.cmdline_args_override(inst, parser.parse_args(["--pin-depth", "4", "--no-verify"]))
+            if (inst.pin.depth, inst.verify, inst.ca) != (4, False, "other.pem"):
+                res.violate("C16:override", "a command-line override on an instance of a config type did not set exactly the supplied options", dict(case, tree=inst.to_tree()))
+            # the mounting schema: its enumeration resolves on it as well
+            for p, _, f in cc.get_all_fields(s):
+                try:
+                    resolved = s[p]
+                except Exception:  # noqa
+                    resolved = None
+                if resolved is not f:
+                    res.violate("C16:ref-path", "an enumerated path of a schema that mounts a config type does not lead to the field", dict(case, path=p))
+                    break
+        except Exception as e:  # noqa
+            res.violate("C16:ref-path", "naming the fields of a config type raised %s" % type(e).__name__, dict(case, error=str(e)[:120]))
+
+
 def run(ctx, n_quick=200, n_thorough=6000):
     res = Result()
+    guard(res, "C16", config_type_mount_stream, ctx, res)
     guard(res, "C16", naming_and_parser, ctx, res, ctx.n(n_quick, n_thorough))
     guard(res, "C16", explicit_key_stream, ctx, res)
     guard(res, "C16", parser_values_stream, ctx, res)
